@@ -205,6 +205,11 @@ func c08(c *Ctx) {
 	}
 	defer os.RemoveAll(base)
 	scanPath := filepath.Join(base, "scan.data")
+	// the byte-level sweep rewrites one small file ~20000 times: keep it on tmpfs when there is one
+	if shm, err := os.MkdirTemp("/dev/shm", "c08-"); err == nil {
+		defer os.RemoveAll(shm)
+		scanPath = filepath.Join(shm, "scan.data")
+	}
 
 	// ---------- (a) byte level ----------
 	c.Op("headlen", fmt.Sprintf("%d", store.RecordHeadLength))
@@ -329,43 +334,52 @@ func c08(c *Ctx) {
 			c.Count("malformed:" + st)
 		}
 	}
+	// hand-made rlp bodies behind a well-formed head: every branch of the decoder model
+	bodies := [][]byte{{0xc0}, {0xc2, 0x01, 0x02}, {0xc2, 0x80, 0x80}, {0xc3, 0x01, 0x02, 0x03}, {0xc1, 0x01}, {0xc2, 0x81, 0x05}, {0xc2, 0x81, 0x85}, {0xc3, 0x81, 0x85, 0x01},
+		{0xc3, 0x01, 0x81, 0x05}, {0xf8, 0x02, 0x01, 0x02}, {0xf8, 0x38}, {0xc2, 0xc0, 0x01}, {0xc2, 0x01, 0xc0}, {0xc3, 0x01, 0xc1, 0x01}, {0xc4, 0xb8, 0x38, 0x01, 0x02}, {0xc3, 0x83, 0x01, 0x02},
+		{0xc2, 0x01, 0x02, 0x03}, {0x01}, {0x7f}, {0x80}, {0x85, 1, 2}, {0x85, 1, 2, 3, 4, 5}, {0xb8}, {0xb8, 0x38}, {0xb9, 0x00, 0x40}, {0xf9, 0x00, 0x40}, {0xf9, 0x01}, {0xf9}, {0xc5, 0xb9, 0x00, 0x40, 1, 2},
+		{0xc4, 0xb9, 0x01, 0x00, 1}, {0xc3, 0xb8, 0x01, 0x01}, {0xc2, 0xb8, 0x38}, {0xc2, 0xb7, 0x01}, {0xc1, 0xb8}, {0xc2, 0xbf, 0x01}, {0xc1, 0x80}, {0xc4, 0x82, 1, 2, 0x80}, {0xc5, 0x82, 1, 2, 0x81, 0x80},
+		{0xfa, 0x00, 0x00, 0x40}, {0xff, 1, 2, 3, 4, 5, 6, 7, 8}, {0xbf, 1, 2, 3, 4, 5, 6, 7, 8}, {0xc9, 0xbf, 0, 0, 0, 0, 0, 0, 0, 0x38}}
+	long := append([]byte{0xf8, 0x3a, 0x01, 0xb8, 0x38}, bytes.Repeat([]byte{0x77}, 56)...) // long list header + long string header, valid
+	bodies = append(bodies, long, long[:len(long)-1], append(append([]byte{}, long...), 0x00))
+	for bi, b := range bodies {
+		for _, dl := range []int{0, -1, 1} {
+			head := make([]byte, 18)
+			binary.LittleEndian.PutUint32(head[0:], uint32(bi%12))
+			ln := len(b) + dl
+			if ln < 0 {
+				continue
+			}
+			binary.LittleEndian.PutUint32(head[4:], uint32(ln))
+			data := append(head, b...)
+			if bi%2 == 0 {
+				data = append(data, make([]byte, 256-len(data)%256)...)
+			}
+			st, _, line := c08Scan(scanPath, data)
+			c.Op("file "+hexOrDash(data), fmt.Sprintf("len %d", len(data)))
+			c.Op(fmt.Sprintf("scan %d 0", len(data)), line)
+			c.Count("handmade:" + st)
+		}
+	}
 	// pure garbage / degenerate files
-	for g := 0; g < 40; g++ {
+	for g := 0; g < 60; g++ {
 		var data []byte
-		switch g % 5 {
+		switch g % 4 {
 		case 0:
 			data = make([]byte, c.Rnd.Intn(600)) // zeros
 		case 1:
 			data = c08RandBytes(c, c.Rnd.Intn(40))
 			if len(data) > 7 {
-				data[6], data[7] = 0, 0
+				data[6], data[7] = 0, 0 // keep head.Len < 65536
 			}
 		case 2:
-			// head with Len = n, body = hand-made rlp
-			bodies := [][]byte{{0xc0}, {0xc2, 0x01, 0x02}, {0xc2, 0x80, 0x80}, {0xc3, 0x01, 0x02, 0x03}, {0xc1, 0x01}, {0xc2, 0x81, 0x05}, {0xc2, 0x81, 0x85}, {0xc3, 0x81, 0x85, 0x01},
-				{0xf8, 0x02, 0x01, 0x02}, {0xf8, 0x38}, {0xc2, 0xc0, 0x01}, {0xc2, 0x01, 0xc0}, {0xc4, 0xb8, 0x38, 0x01, 0x02}, {0xc3, 0x83, 0x01, 0x02}, {0xc2, 0x01, 0x02, 0x03}, {0x01}, {0x80}, {0x85, 1, 2}, {0xb8}, {0xf9, 0x00, 0x40}, {0xf9, 0x01}, {0xc5, 0xb9, 0x00, 0x40, 1, 2}}
-			b := bodies[c.Rnd.Intn(len(bodies))]
-			head := make([]byte, 18)
-			binary.LittleEndian.PutUint32(head[0:], uint32(c.Rnd.Intn(12)))
-			ln := len(b)
-			if c.Rnd.Intn(3) == 0 {
-				ln += c.Rnd.Intn(3) - 1
-			}
-			if ln < 0 {
-				ln = 0
-			}
-			binary.LittleEndian.PutUint32(head[4:], uint32(ln))
-			data = append(head, b...)
-			if c.Rnd.Intn(2) == 0 {
-				data = append(data, make([]byte, 256-len(data)%256)...)
-			}
-		case 3:
 			r := c08GenRecord(c)
 			raw, _ := c08Encode(r)
 			data = append(raw, c08RandBytes(c, c.Rnd.Intn(30))...)
-			data[len(raw)+6-min(6, len(data)-len(raw))] = data[len(raw)+6-min(6, len(data)-len(raw))] // no-op, keep shape
 			if len(data) >= len(raw)+8 {
 				data[len(raw)+6], data[len(raw)+7] = 0, 0
+			} else if len(data) > len(raw)+4 {
+				data = data[:len(raw)+4]
 			}
 		default:
 			data = []byte{}
